@@ -951,6 +951,8 @@ def is_panic_class(A, msg, spans):
         for sp in spans:
             if sp.get("label") == "failed precondition":
                 ln = sp["line_start"]
+                if "/gen/" not in sp.get("file_name", ""):
+                    return False    # a precondition inside vstd (operator / iterator spec plumbing), not a panic condition of the code
                 if ln in A.clause_at:
                     return A.clause_at[ln][1] in PANIC_REQ
                 if ln < A.spec_start:
